@@ -59,6 +59,8 @@ def gen_cases(tier, seed):
     n = {'quick': 1800, 'thorough': 40000}[tier]
     for i in range(n):
         yield {'family': FORMS[i % len(FORMS)], 'idx': i, 'seed': seed}
+    for i in range({'quick': 16, 'thorough': 200}[tier]):
+        yield {'family': 'two_positions', 'idx': 10 ** 6 + i, 'seed': seed}
 
 
 def is_small(v):
@@ -69,7 +71,76 @@ def row_ok(row):
     return row['u1'] is not None and not row['u1'].startswith('q')
 
 
+def run_two_positions(case):
+    """ONE set_type / validate object at two positions of a flow (a further resource arrives in between): each position
+    casts and polices the resource it stands for, exactly as two equal objects do."""
+    rng = boot.rng(case['seed'], 'C14', 'two_positions', case['idx'])
+    d = lab.df()
+    sv = d.schema_validator
+    policy = rng.choice(['drop', 'clear', 'ignore'])
+    kind = rng.choice(['set_type_default', 'set_type_default', 'set_type_int', 'validate'])
+    counters = {'cells_checked': 0, 'bad_cells_expected': 0, 'handler_calls': 0}
+    cfg = {'form': 'two_positions', 'step': kind, 'policy': policy}
+
+    def rows(base):
+        out = []
+        for i in range(rng.choice([2, 5, 12])):
+            out.append({'id': base + i, 'v': rng.choice(['10', '7', 'x', None, '-3', 'y1'])})
+        return out
+    ta, tb = rows(0), rows(100)
+    fstr = [{'name': 'id', 'type': 'integer'}, {'name': 'v', 'type': 'string'}]
+    fint = [{'name': 'id', 'type': 'integer'}, {'name': 'v', 'type': 'integer'}]
+
+    def mk():
+        h = {'drop': sv.drop, 'clear': sv.clear, 'ignore': sv.ignore}[policy]
+        if kind == 'set_type_default':
+            return d.set_type('v', type='integer', on_error=h)
+        if kind == 'set_type_int':
+            return d.set_type('v', type='integer', on_error=h, resources=-1)
+        return d.validate(on_error=h, resources=-1)
+
+    def flow(shared):
+        s1 = mk()
+        s2 = s1 if shared else mk()
+        fa = fstr if kind != 'validate' else fint
+        return [lab.source('a', fa, ta), s1, lab.source('b', fa, tb), s2]
+
+    def expect(t):
+        out = []
+        for r in t:
+            v = r['v']
+            ok = v is None or v.lstrip('-').isdigit()
+            counters['cells_checked'] += 1
+            if ok:
+                out.append({'id': r['id'], 'v': None if v is None else int(v)})
+            else:
+                counters['bad_cells_expected'] += 1
+                if policy == 'clear':
+                    out.append({'id': r['id'], 'v': None})
+                elif policy == 'ignore':
+                    out.append({'id': r['id'], 'v': v})
+        return out
+    viol = []
+    got = lab.run(flow(True))
+    if not got.ok:
+        viol.append({'kind': 'two_positions', 'mech': 'two_positions/failed', 'config': cfg,
+                     'msg': '%r: one step object at two positions: the run failed: %s' % (cfg, got.errstr())})
+    else:
+        for name, t, res in zip('ab', (ta, tb), got.results):
+            dd = lab.rows_diff(expect(t), res, 1)
+            if dd:
+                viol.append({'kind': 'two_positions', 'mech': 'two_positions/rows', 'config': cfg,
+                             'msg': '%r: one step object at two positions: resource %s: %s' % (cfg, name, dd[0])})
+                break
+    counters['handler_calls'] = 1
+    return dict(nontrivial=True, violations=viol, counters=counters,
+                cov={'type_x_policy': {}, 'bad_position': {}, 'form': {'two_positions/%s/%s' % (kind, policy): 1}},
+                sample={'config': cfg})
+
+
 def run_case(case):
+    if case['family'] == 'two_positions':
+        return run_two_positions(case)
     form = case['family']
     rng = boot.rng(case['seed'], 'C14', case['idx'])
     d = lab.df()
@@ -162,6 +233,12 @@ def run_case(case):
             def h4_tag(res_name, row, i, e, tag=None):
                 return h4(res_name, row, i, e)
             handler = functools.partial(h4_tag, tag='t')
+    if policy == 'custom5' and boot.rng(case['seed'], 'C14', 'h5shape', case['idx']).random() < 0.4:
+        # a documented 5-argument handler whose last parameter is optional
+        cov.setdefault('handler_shape', {})['five_with_default'] = 1
+
+        def handler(res_name, row, i, e, field=None):           # noqa: F811
+            return h5(res_name, row, i, e, field)
     transform = None
     tcalls = {}         # (field, row id) -> number of times the transform was applied to that cell in the judged run
     steps_pre = []
